@@ -179,6 +179,12 @@ func TLSKeyStore(keyName string) dsig.X509KeyStore {
 	return dsig.TLSCertKeyStore(tls.Certificate{Certificate: [][]byte{Cert(keyName).Raw}, PrivateKey: RSAKey(keyName)})
 }
 
+// TLSKeyStoreChain is TLSKeyStore with a second certificate (another key's) after the leaf,
+// as a deployment that configures a certificate chain would have.
+func TLSKeyStoreChain(keyName, extra string) dsig.X509KeyStore {
+	return dsig.TLSCertKeyStore(tls.Certificate{Certificate: [][]byte{Cert(keyName).Raw, Cert(extra).Raw}, PrivateKey: RSAKey(keyName)})
+}
+
 // SetterKeyStore is the setter-style key store for a key with its default certificate.
 func SetterKeyStore(keyName string) *saml2.KeyStore {
 	return &saml2.KeyStore{Signer: Key(keyName), Cert: Cert(keyName).Raw}
